@@ -35,6 +35,8 @@ func c13Letters() []cletter {
 		{"CopyData()", "data", "", pgproto.CopyData(nil)},
 		{"Flush", "flush", "", pgproto.Flush()},
 		{"UnknownType", "unknown", "", pgproto.Msg('z', nil)},
+		{"Oversized CopyData", "oversized", "", pgproto.CopyData(make([]byte, harness.DefaultLimit+1))},
+		{"Terminate", "terminate", "", pgproto.Terminate()},
 	}
 }
 
@@ -126,6 +128,7 @@ type c13Exp struct {
 	start   []string   // allowed replies to the message that starts the COPY (Query / Execute)
 	replies [][]string // allowed replies per following letter
 	handler []string   // "chunk:<payload>", "eof", "error" in the order the handler observes them
+	closedAt int       // index of the letter that closes the connection (Terminate outside COPY), -1 = none
 }
 
 // c13Policy is the reference model of a handler policy: it reacts to what a
@@ -200,6 +203,7 @@ func (p *c13Policy) on(ev string) string {
 // c13Sim is the reference model of the COPY sub-protocol for one cycle.
 func c13Sim(mode, policy string, letters []cletter) c13Exp {
 	var e c13Exp
+	e.closedAt = -1
 	pol := &c13Policy{name: policy}
 	head := "G"
 	if mode == "simple" {
@@ -217,6 +221,7 @@ func c13Sim(mode, policy string, letters []cletter) c13Exp {
 	}
 	copying := true
 	skipping := false
+	closed := false
 	if ret := pol.on("start"); ret != "" {
 		copying = false
 		skipping = mode == "extended" && ret == "error"
@@ -224,7 +229,7 @@ func c13Sim(mode, policy string, letters []cletter) c13Exp {
 	} else {
 		e.start = []string{head}
 	}
-	for _, l := range letters {
+	for li, l := range letters {
 		if copying {
 			ev := ""
 			switch l.Kind {
@@ -252,7 +257,22 @@ func c13Sim(mode, policy string, letters []cletter) c13Exp {
 			continue
 		}
 		// outside COPY mode
+		if closed {
+			e.replies = append(e.replies, []string{""})
+			continue
+		}
 		switch {
+		case l.Kind == "terminate":
+			closed = true
+			e.closedAt = li
+			e.replies = append(e.replies, []string{""})
+		case l.Kind == "oversized" && skipping:
+			e.replies = append(e.replies, []string{"", "E", "EZ"}) // C06 / C10: not asserted here
+		case l.Kind == "oversized":
+			e.replies = append(e.replies, []string{"E", "EZ"})
+			if mode == "extended" {
+				skipping = true
+			}
 		case skipping && l.Kind == "sync":
 			skipping = false
 			e.replies = append(e.replies, []string{"Z"})
@@ -365,7 +385,14 @@ func c13Run(mode, policy string, ncols int, binary bool, letters []cletter) expl
 	uncertain := false
 	for j, l := range full {
 		if st != memnet.Parked {
+			if expFull.closedAt >= 0 && j > expFull.closedAt && st == memnet.Closed {
+				break // the client terminated the connection: nothing more can be observed
+			}
 			res.Fail("connection-dropped", fmt.Sprintf("connection %s before %s", st, l.Name))
+			return res
+		}
+		if expFull.closedAt >= 0 && j > expFull.closedAt {
+			res.Fail("terminate-ignored", fmt.Sprintf("%s %s: the connection is still open after Terminate (history %v)", mode, prog, c13Names(full)))
 			return res
 		}
 		var o []byte
